@@ -124,7 +124,15 @@ Definition vrows_fit (tname : str) (t : option table) (vrow : list (list value))
   | None => Ok (negb (CREATE_TABLE_REFUSES_UNRECORDABLE && negb (str_eqb tname VALIDATION_TABLE_NAME) && needs_validation vrow))
   end.
 
-Definition pkg_create_table (prof : profile) (k : pkg) (tname : str) (cols : list column) : pkg * res unit :=
+(* dry == CREATE_TABLE_DRY_RUNS: the repaired create_table first performs every check of the three catalog inserts
+   (Insert::check: keys already present, e.g. _Validation rows describing a table that does not exist; a full catalog
+   table) so that none of them can be refused once the first has gone through *)
+Definition catalog_dry_run (prof : profile) (k : pkg) (name : str) (rows : list (list value)) : res unit :=
+  match find_table (k_tabs k) name with
+  | Some _ => exec_insert_check prof (k_cont k) (k_pool k) (k_tabs k) name rows
+  | None => Ok tt
+  end.
+Definition pkg_create_table_with (dry : bool) (prof : profile) (k : pkg) (tname : str) (cols : list column) : pkg * res unit :=
   if negb (is_valid_tname tname) then (k, Err)
   else if existsb (str_eqb tname) CREATE_TABLE_EXTRA_RESERVED then (k, Err)
   else match cols with [] => (k, Err) | _ =>
@@ -140,6 +148,13 @@ Definition pkg_create_table (prof : profile) (k : pkg) (tname : str) (cols : lis
           rows_fit (find_table (k_tabs k) TABLES_TABLE_NAME) trow,
           vrows_fit tname (find_table (k_tabs k) VALIDATION_TABLE_NAME) vrow with
     | Ok true, Ok true, Ok true =>
+      match (if dry then (_ <- catalog_dry_run prof k COLUMNS_TABLE_NAME crow ;;
+                          _ <- catalog_dry_run prof k TABLES_TABLE_NAME trow ;;
+                          catalog_dry_run prof k VALIDATION_TABLE_NAME vrow)
+             else Ok tt) with
+      | Err => (k, Err)
+      | Panic => (k, Panic)
+      | Ok _ =>
         let '(k1, r1) := pkg_insert prof k COLUMNS_TABLE_NAME crow in
         match r1 with Ok _ =>
           let '(k2, r2) := pkg_insert prof k1 TABLES_TABLE_NAME trow in
@@ -151,10 +166,12 @@ Definition pkg_create_table (prof : profile) (k : pkg) (tname : str) (cols : lis
             end
           | e => (k2, e) end
         | e => (k1, e) end
+      end
     | Panic, _, _ | _, Panic, _ | _, _, Panic => (k, Panic)
     | _, _, _ => (k, Err)
     end
   end end.
+Definition pkg_create_table := pkg_create_table_with CREATE_TABLE_DRY_RUNS.
 
 (* ---- drop_table ------------------------------------------------------------------------ *)
 Definition table_eq_cond (col : str) (tname : str) : option ast :=
